@@ -1,6 +1,6 @@
 (* C07/Properties.v -- pinned statements of property C07. *)
 From Sophia.C02 Require Import Model.
-From Sophia.C07 Require Import Model Keys Isort Proofs.
+From Sophia.C07 Require Import Model Keys Isort Proofs LoopModel LoopProofs EntryModel EntryProofs.
 From Coq Require Import Permutation.
 
 (* no false negative, for every hash function, renaming (injective on the blank nodes present,
@@ -41,3 +41,164 @@ Print Assumptions quad_cmp_key.
 Print Assumptions gsort_perm_eq.
 Print Assumptions prefix_false_negative.
 Print Assumptions nonvacuous.
+
+(* ================= termination of the refinement loop ================= *)
+(* (a) if the number of colour classes never decreases along the run (2 * #blank nodes rounds
+   from the initial colouring: [loop_mono], a decidable condition on Hv and ONE dataset), the
+   loop stops: the model answers Some for every fuel >= 2 * #blank nodes + 1 *)
+Check (refine_terminates : forall Hv d1 d2 bn1 bn2 c1 c2 fuel,
+  mono_run Hv d1 bn1 (length bn1 + length bn2) c1 = true ->
+  mono_run Hv d2 bn2 (length bn1 + length bn2) c2 = true ->
+  (S (length bn1 + length bn2) <= fuel)%nat ->
+  refine Hv fuel d1 d2 bn1 bn2 c1 c2 0 0 <> None).
+Check (iso_terminates : forall Hv d1 d2 fuel,
+  loop_mono Hv d1 = true -> loop_mono Hv d2 = true -> (enough_fuel d1 <= fuel)%nat ->
+  isomorphic Hv iso_eqb iso_cmp fuel d1 d2 <> None).
+Check (iso_decides : forall Hv d1 d2 fuel,
+  loop_mono Hv d1 = true -> loop_mono Hv d2 = true -> (enough_fuel d1 <= fuel)%nat ->
+  exists b, isomorphic Hv iso_eqb iso_cmp fuel d1 d2 = Some b).
+(* "no collision merges classes" (the partition after a round refines the one before) implies it *)
+Check (no_merge_mono : forall Hv d bn c, no_merge_b Hv d bn (round Hv d bn c) = true ->
+  (nclasses (round Hv d bn c) <= nclasses (round Hv d bn (round Hv d bn c)))%nat).
+Check (no_merge_b_spec : forall Hv d bn c, no_merge_b Hv d bn c = true ->
+  forall b b', In b bn -> In b' bn ->
+  new_colour Hv d c b = new_colour Hv d c b' -> look c b = look c b').
+Check (loop_no_merge_mono : forall Hv d, loop_no_merge Hv d = true -> loop_mono Hv d = true).
+(* eqcl.len() is the number of distinct digests, at most the number of blank nodes *)
+Check (nclasses_nodup : forall c, nclasses c = length (nodup N.eq_dec (map snd c))).
+Check (nclasses_le_length : forall c, (nclasses c <= length c)%nat).
+(* the fuel is immaterial once the loop stops *)
+Check (iso_fuel_stable : forall Hv teq tcmp f f' d1 d2 b,
+  isomorphic Hv teq tcmp f d1 d2 = Some b -> (f <= f')%nat -> isomorphic Hv teq tcmp f' d1 d2 = Some b).
+(* (b) for an arbitrary hash function the loop need NOT stop *)
+Check (termination_refuted_for_adversarial_hash :
+  exists (Hv : vquad -> N) (d : list quad),
+    Forall wfq d /\ forall fuel, isomorphic Hv iso_eqb iso_cmp fuel d d = None).
+Check (refine_never_stops_for_adversarial_hash :
+  exists (Hv : vquad -> N) (d : list quad) (bn : list str),
+    forall fuel, refine Hv fuel d d bn bn (init_colouring d bn) (init_colouring d bn) 0 0 = None).
+(* ... not even for a hash function that is injective on every view hashed for the dataset: the
+   digests are XOR-combined, and XORs of distinct values collide *)
+Check (termination_refuted_for_view_injective_hash :
+  exists (Hv : vquad -> N) (d : list quad),
+    Forall wfq d
+    /\ (forall c c' b b' q q',
+          In b (bn_of d) -> In q d -> has_bnode b q = true ->
+          In b' (bn_of d) -> In q' d -> has_bnode b' q' = true ->
+          Hv (view_q c b q) = Hv (view_q c' b' q') -> view_q c b q = view_q c' b' q')
+    /\ forall fuel, isomorphic Hv iso_eqb iso_cmp fuel d d = None).
+(* (c) the condition is invariant under renaming/reordering, hence needed on one side only:
+   a renamed and reordered copy is answered Some true *)
+Check (loop_mono_rename : forall Hv pi d1 d2,
+  Permutation d2 (map (rename_q pi) d1) -> inj_on pi (flat_map bnodes_q d1) ->
+  loop_mono Hv d2 = loop_mono Hv d1).
+Check (iso_true_on_copies : forall (Hv : vquad -> N) (pi : str -> str) (d1 d2 : list quad) fuel,
+  Forall wfq d1 ->
+  Permutation d2 (map (rename_q pi) d1) ->
+  inj_on pi (flat_map bnodes_q d1) ->
+  loop_mono Hv d1 = true ->
+  (enough_fuel d1 <= fuel)%nat ->
+  isomorphic Hv iso_eqb iso_cmp fuel d1 d2 = Some true).
+(* datasets without blank nodes satisfy the condition for every hash function *)
+Check (loop_mono_ground : forall Hv d, bn_of (sort_q iso_cmp d) = [] -> loop_mono Hv d = true).
+
+(* ================= entry points ================= *)
+(* complete description of isomorphic_datasets on fallible datasets (all inputs) *)
+Check (@iso_datasets_res_spec : forall Hv teq tcmp fuel (E1 E2 : Type)
+  (d1 : list (res quad E1)) (d2 : list (res quad E2)),
+  iso_datasets_res Hv teq tcmp fuel d1 d2 =
+  match first_error d1 with
+  | Some e => RErr (SourceError e)
+  | None => match first_error d2 with
+            | Some e => RErr (SinkError e)
+            | None => ROk (isomorphic Hv teq tcmp fuel (oks d1) (oks d2))
+            end
+  end).
+Check (@iso_res_source_error : forall Hv teq tcmp fuel (E1 E2 : Type) (l : list quad) (e : E1) r (d2 : list (res quad E2)),
+  iso_datasets_res Hv teq tcmp fuel (map ROk l ++ RErr e :: r) d2 = RErr (SourceError e)
+  /\ iso_datasets_pulls (map ROk l ++ RErr e :: r) d2 = (S (length l), O)).
+Check (@iso_res_sink_error : forall Hv teq tcmp fuel (E1 E2 : Type) (l1 l2 : list quad) (e : E2) r,
+  iso_datasets_res Hv teq tcmp fuel (map (@ROk quad E1) l1) (map ROk l2 ++ RErr e :: r) = RErr (SinkError e)
+  /\ iso_datasets_pulls (map (@ROk quad E1) l1) (map ROk l2 ++ RErr e :: r) = (length l1, S (length l2))).
+Check (@iso_res_pure : forall Hv teq tcmp fuel (E1 E2 : Type) (l1 l2 : list quad),
+  iso_datasets_res Hv teq tcmp fuel (map (@ROk quad E1) l1) (map (@ROk quad E2) l2)
+  = ROk (isomorphic Hv teq tcmp fuel l1 l2)
+  /\ iso_datasets_pulls (map (@ROk quad E1) l1) (map (@ROk quad E2) l2) = (length l1, length l2)).
+Check (@res_split : forall (A E : Type) (d : list (res A E)),
+  (exists l, d = map (@ROk A E) l) \/ (exists l e r, d = map (@ROk A E) l ++ RErr e :: r)).
+(* isomorphic_graphs = isomorphic_datasets on (s, p, o, default graph) *)
+Check (@iso_graphs_as_datasets : forall Hv teq tcmp fuel (E1 E2 : Type) (t1 t2 : list trip),
+  iso_graphs_res Hv teq tcmp fuel (map (@ROk trip E1) t1) (map (@ROk trip E2) t2)
+  = iso_datasets_res Hv teq tcmp fuel (map (@ROk quad E1) (map into_quad t1)) (map (@ROk quad E2) (map into_quad t2))).
+Check (@iso_graphs_eq_datasets_on_default_graph : forall Hv teq tcmp fuel (E1 E2 : Type) (d1 d2 : list quad),
+  Forall (fun q => qg q = None) d1 -> Forall (fun q => qg q = None) d2 ->
+  iso_graphs_res Hv teq tcmp fuel (map (@ROk trip E1) (map triple_of d1)) (map (@ROk trip E2) (map triple_of d2))
+  = iso_datasets_res Hv teq tcmp fuel (map (@ROk quad E1) d1) (map (@ROk quad E2) d2)).
+Check (@iso_graphs_source_error : forall Hv teq tcmp fuel (E1 E2 : Type) (t : list trip) (e : E1) r (g2 : list (res trip E2)),
+  iso_graphs_res Hv teq tcmp fuel (map ROk t ++ RErr e :: r) g2 = RErr (SourceError e)
+  /\ iso_graphs_pulls (map ROk t ++ RErr e :: r) g2 = (S (length t), O)).
+Check (@iso_graphs_sink_error : forall Hv teq tcmp fuel (E1 E2 : Type) (t1 t2 : list trip) (e : E2) r,
+  iso_graphs_res Hv teq tcmp fuel (map (@ROk trip E1) t1) (map ROk t2 ++ RErr e :: r) = RErr (SinkError e)
+  /\ iso_graphs_pulls (map (@ROk trip E1) t1) (map ROk t2 ++ RErr e :: r) = (length t1, S (length t2))).
+(* the theorems at the entry points *)
+Check (@entry_no_false_negative : forall Hv (E1 E2 : Type) pi (d1 d2 : list quad) fuel,
+  Forall wfq d1 -> Permutation d2 (map (rename_q pi) d1) -> inj_on pi (flat_map bnodes_q d1) ->
+  exists r, iso_datasets_res Hv iso_eqb iso_cmp fuel (map (@ROk quad E1) d1) (map (@ROk quad E2) d2) = ROk r
+            /\ r <> Some false).
+Check (@entry_true_on_copies : forall Hv (E1 E2 : Type) pi (d1 d2 : list quad) fuel,
+  Forall wfq d1 -> Permutation d2 (map (rename_q pi) d1) -> inj_on pi (flat_map bnodes_q d1) ->
+  loop_mono Hv d1 = true -> (enough_fuel d1 <= fuel)%nat ->
+  iso_datasets_res Hv iso_eqb iso_cmp fuel (map (@ROk quad E1) d1) (map (@ROk quad E2) d2) = ROk (Some true)).
+Check (@graph_no_false_negative : forall Hv (E1 E2 : Type) pi (t1 t2 : list trip) fuel,
+  Forall wf_trip t1 -> Permutation t2 (map (rename_trip pi) t1) -> inj_on pi (flat_map bnodes_trip t1) ->
+  exists r, iso_graphs_res Hv iso_eqb iso_cmp fuel (map (@ROk trip E1) t1) (map (@ROk trip E2) t2) = ROk r
+            /\ r <> Some false).
+Check (@graph_true_on_copies : forall Hv (E1 E2 : Type) pi (t1 t2 : list trip) fuel,
+  Forall wf_trip t1 -> Permutation t2 (map (rename_trip pi) t1) -> inj_on pi (flat_map bnodes_trip t1) ->
+  loop_mono Hv (map into_quad t1) = true -> (enough_fuel (map into_quad t1) <= fuel)%nat ->
+  iso_graphs_res Hv iso_eqb iso_cmp fuel (map (@ROk trip E1) t1) (map (@ROk trip E2) t2) = ROk (Some true)).
+Check (@graph_symmetric : forall Hv fuel (E1 E2 : Type) (t1 t2 : list trip),
+  iso_graphs_res Hv iso_eqb iso_cmp fuel (map (@ROk trip E1) t1) (map (@ROk trip E2) t2)
+  = ROk (isomorphic Hv iso_eqb iso_cmp fuel (map into_quad t2) (map into_quad t1))).
+
+(* non-vacuity: the termination condition holds on a two-cycle with a blank graph name (FNV
+   stand-in and a toy hash injective on the views that occur) and fails for the adversarial hash *)
+Check (no_merge_satisfiable : loop_no_merge Hfnv ex_cycle = true).
+Check (no_merge_satisfiable_toy : loop_no_merge Htoy ex_cycle = true
+  /\ isomorphic Htoy iso_eqb iso_cmp (enough_fuel ex_cycle) ex_cycle ex_cycle = Some true).
+Check (adv_not_mono : loop_mono Hadv adv_d = false).
+
+Print Assumptions refine_terminates.
+Print Assumptions iso_terminates.
+Print Assumptions iso_decides.
+Print Assumptions no_merge_mono.
+Print Assumptions no_merge_b_spec.
+Print Assumptions loop_no_merge_mono.
+Print Assumptions nclasses_nodup.
+Print Assumptions nclasses_le_length.
+Print Assumptions iso_fuel_stable.
+Print Assumptions termination_refuted_for_adversarial_hash.
+Print Assumptions refine_never_stops_for_adversarial_hash.
+Print Assumptions termination_refuted_for_view_injective_hash.
+Print Assumptions loop_mono_rename.
+Print Assumptions iso_true_on_copies.
+Print Assumptions loop_mono_ground.
+Print Assumptions iso_datasets_res_spec.
+Print Assumptions iso_res_source_error.
+Print Assumptions iso_res_sink_error.
+Print Assumptions iso_res_pure.
+Print Assumptions res_split.
+Print Assumptions iso_graphs_as_datasets.
+Print Assumptions iso_graphs_eq_datasets_on_default_graph.
+Print Assumptions iso_graphs_source_error.
+Print Assumptions iso_graphs_sink_error.
+Print Assumptions entry_no_false_negative.
+Print Assumptions entry_true_on_copies.
+Print Assumptions graph_no_false_negative.
+Print Assumptions graph_true_on_copies.
+Print Assumptions graph_symmetric.
+Print Assumptions no_merge_satisfiable.
+Print Assumptions no_merge_satisfiable_toy.
+Print Assumptions adv_not_mono.
+Print Assumptions both_fail.
+Print Assumptions graph_copy.
